@@ -50,6 +50,7 @@ func (conn *HTTPConn) Send(msg string) error {
 	}
 
 	req.Header.Set("Content-Type", "application/json")
+	verifHTTPClient(conn.client)
 	resp, err := conn.client.Do(req)
 	if err != nil {
 		return err
